@@ -12,10 +12,17 @@ package main
 // Every run starts with freshly constructed receivers; in a share of the runs
 // the first requests a receiver handles in its life arrive together (cold
 // start: every peer reconnects at once, a frame is duplicated on the wire).
+// The HTTP message types travel over simulated server connections (world.go:
+// one fasthttp RequestCtx per connection, reused for every request of that
+// connection as fasthttp does), with other traffic - the peers' next
+// legitimate requests, unauthenticated junk - on the same connections between
+// a request and its replay; a replay may come over any connection and with
+// its header fields in any order.
 // Oracle (property text only): per (type, sender, nonce) at most one delivery
 // is accepted; a delivery whose timestamp is outside the window is rejected.
 
 import (
+	"encoding/json"
 	"fmt"
 	"os"
 	"sort"
@@ -34,9 +41,19 @@ type Msg struct {
 }
 
 type Op struct {
-	Op     string `json:"op"`             // send | wait | until | step
-	Msgs   []int  `json:"msgs,omitempty"` // send: requests delivered concurrently (an index may repeat)
-	Ref    string `json:"ref,omitempty"`  // wait/step: sec|tol|ttl   until: nonce_expiry|win_end|win_start
+	Op     string `json:"op"`               // send | wait | until | step | traffic
+	Msgs   []int  `json:"msgs,omitempty"`   // send: requests delivered concurrently (an index may repeat)
+	Conns  []int  `json:"conns,omitempty"`  // send: per delivery, the HTTP connection it arrives on (absent = 0)
+	Orders []int  `json:"orders,omitempty"` // send: per delivery, the order of its header fields (absent/0 = canonical)
+	// traffic: one other request on HTTP connection Conn: a fresh, correctly
+	// signed request of message type Typ from sender Sender that is never
+	// replayed or (Junk) a request with the same header fields and worthless values
+	Typ    string `json:"typ,omitempty"`
+	Sender int    `json:"sender,omitempty"`
+	Conn   int    `json:"conn,omitempty"`
+	Order  int    `json:"order,omitempty"`
+	Junk   bool   `json:"junk,omitempty"`
+	Ref    string `json:"ref,omitempty"` // wait/step: sec|tol|ttl   until: nonce_expiry|win_end|win_start
 	RefMsg int    `json:"ref_msg"`
 	Pm     int    `json:"pm,omitempty"` // permille of Ref
 	Sec    int    `json:"sec,omitempty"`
@@ -188,7 +205,24 @@ func script(r *simrt.Rand, i int, m Msg, replayOnly bool) []Op {
 		return Op{Op: "wait", Ref: "sec", RefMsg: i, Sec: r.Intn(3), Ms: r.Intn(1000), Sleep: r.Chance(30)}
 	}
 	var ops []Op
-	switch r.Intn(8) {
+	k := r.Intn(9)
+	if k == 8 && !isHTTPType(m.Type) {
+		k = 0
+	}
+	switch k {
+	case 8: // the connection that carried the request carries other requests before the replay arrives
+		ops = []Op{send(1)}
+		for n := 1 + r.Intn(3); n > 0; n-- {
+			// Conn -1: the connection of this request's latest delivery (resolved in genC26)
+			ops = append(ops, Op{Op: "traffic", Typ: m.Type, Sender: m.Sender, Conn: -1, RefMsg: i, Junk: true})
+			if r.Chance(30) {
+				ops = append(ops, smallWait())
+			}
+		}
+		if r.Chance(30) {
+			ops = append(ops, Op{Op: "wait", Ref: "tol", RefMsg: i, Pm: r.Intn(900), Ms: r.Intn(1000)})
+		}
+		ops = append(ops, send(1))
 	case 0: // immediate replay
 		ops = []Op{send(1), smallWait(), send(1)}
 	case 1: // replay around the expiry of the nonce entry
@@ -232,6 +266,15 @@ func script(r *simrt.Rand, i int, m Msg, replayOnly bool) []Op {
 	}
 	return ops
 }
+
+// fullConnModePct: share of the plans with HTTP requests that run in full
+// connection mode (see genC26).
+const fullConnModePct = 1
+
+// maxConns bounds the connection indices a plan may name.
+const maxConns = 64
+
+func isHTTPType(t string) bool { return t == tCacheInv || t == tEdgeFile || t == tEdgeRec }
 
 // receiverOf groups the message types by the replay cache that guards them.
 func receiverOf(t string) string {
@@ -344,11 +387,118 @@ func genC26(r *simrt.Rand, tier string) any {
 	if r.Chance(30) {
 		var ops []Op
 		for _, o := range p.Ops {
-			if n := len(ops); n > 0 && o.Op == "send" && ops[n-1].Op == "send" && len(ops[n-1].Msgs)+len(o.Msgs) <= 4 && r.Chance(60) {
+			if n := len(ops); n > 0 && o.Op == "send" && ops[n-1].Op == "send" && o.Conns == nil && ops[n-1].Conns == nil && len(ops[n-1].Msgs)+len(o.Msgs) <= 4 && r.Chance(60) {
 				ops[n-1].Msgs = append(append([]int(nil), ops[n-1].Msgs...), o.Msgs...)
 				continue
 			}
 			ops = append(ops, o)
+		}
+		p.Ops = ops
+	}
+	// HTTP connections: which connection a delivery arrives on, the order of
+	// its header fields, and what else those connections carry in between.
+	//
+	// Usual mode: every signed request arrives on a connection of its own (a
+	// peer that does not keep connections alive, a replaying attacker), and what
+	// follows on a used connection is junk, which never gets as far as the replay
+	// check. Full mode: few connections, signed requests and junk on any of them.
+	// Full mode is kept rare for one reason only: a signed request that reaches
+	// the replay check through a RequestCtx that has carried an accepted request
+	// before makes a receiver that wrongly kept references into request buffers
+	// behave according to the per-map random hash seed of the Go runtime, and the
+	// verdict machinery (vcheck) rightly refuses batches that do not reproduce.
+	// In the usual mode such a receiver misbehaves reproducibly.
+	var httpTypes []string
+	seenT := map[string]bool{}
+	for _, m := range p.Msgs {
+		if isHTTPType(m.Type) && !seenT[m.Type] {
+			seenT[m.Type] = true
+			httpTypes = append(httpTypes, m.Type)
+		}
+	}
+	if len(httpTypes) > 0 {
+		full := r.Chance(fullConnModePct)
+		nconn, next := 1+r.Intn(3), 0
+		pick := func() int {
+			if full {
+				return r.Intn(nconn)
+			}
+			next++
+			return next - 1
+		}
+		trafficPct := []int{0, 15, 40}[r.Intn(3)]
+		lastConn := map[int]int{}
+		var ops []Op
+		for _, o := range p.Ops {
+			switch o.Op {
+			case "traffic": // from a script
+				if c, ok := lastConn[o.RefMsg]; ok && o.Conn < 0 {
+					o.Conn = c
+				} else {
+					o.Conn = pick()
+				}
+				o.RefMsg = 0
+				if full {
+					o.Junk = r.Chance(40)
+					if r.Chance(30) {
+						o.Sender = r.Intn(2)
+					}
+				}
+				if r.Chance(20) {
+					o.Order = r.Intn(6)
+				}
+				ops = append(ops, o)
+				continue
+			case "send":
+			default:
+				ops = append(ops, o)
+				continue
+			}
+			o.Conns, o.Orders = nil, nil
+			anyHTTP := false
+			for _, mi := range o.Msgs {
+				c, ord := 0, 0
+				if isHTTPType(p.Msgs[mi].Type) {
+					anyHTTP = true
+					c = pick()
+					if r.Chance(25) {
+						ord = 1 + r.Intn(5)
+					}
+					lastConn[mi] = c
+				}
+				o.Conns, o.Orders = append(o.Conns, c), append(o.Orders, ord)
+			}
+			if !anyHTTP {
+				o.Conns, o.Orders = nil, nil
+			}
+			ops = append(ops, o)
+			for k, mi := range o.Msgs {
+				m := p.Msgs[mi]
+				if !isHTTPType(m.Type) || !r.Chance(trafficPct) {
+					continue
+				}
+				t := Op{Op: "traffic", Typ: m.Type, Sender: m.Sender, Conn: o.Conns[k], Order: o.Orders[k], Junk: true}
+				if r.Chance(30) {
+					t.Typ = httpTypes[r.Intn(len(httpTypes))]
+				}
+				if r.Chance(30) {
+					t.Sender = r.Intn(2)
+				}
+				if r.Chance(15) {
+					t.Order = r.Intn(6)
+				}
+				switch {
+				case full:
+					t.Junk = r.Chance(40)
+					if r.Chance(20) {
+						t.Conn = r.Intn(nconn)
+					}
+				case r.Chance(35):
+					// another peer's signed request, on a connection of its own
+					t.Junk, t.Conn = false, pick()
+				}
+				ops = append(ops, t)
+			}
 		}
 		p.Ops = ops
 	}
@@ -379,6 +529,10 @@ type delivery struct {
 	accepted           bool
 	tol                time.Duration // tolerance the handler passed to the validator for this request
 	stepsBefore        int           // receiver clock steps that happened before this delivery
+	conn, order        int           // HTTP: connection it arrived on, order of its header fields
+	served             int           // HTTP: requests parsed on that connection up to and including this one
+	reusedConn         bool          // HTTP: the connection had carried requests before this one
+	afterReuse         bool          // HTTP: see probe.replay_after_connection_reuse
 }
 
 type msgState struct {
@@ -386,6 +540,9 @@ type msgState struct {
 	deliveries []delivery
 	acceptWall int64 // receiver wall clock at the end of the first accepted delivery
 	hasAccept  bool
+	accConn    int // HTTP: connection, header order of the first accepted delivery and the
+	accOrder   int // number of requests that connection had parsed when it was done
+	accServed  int
 }
 
 func runC26(planAny any, cfg simrt.Config) *simkit.Outcome {
@@ -401,7 +558,7 @@ func runC26(planAny any, cfg simrt.Config) *simkit.Outcome {
 		st[i] = &msgState{}
 	}
 	var w *world
-	var invalidations, cacheAccepts int64
+	var invalidations, cacheAccepts, traffic int64
 	steps := 0
 	type wallSample struct{ sim, wall int64 }
 	var samples []wallSample   // receiver wall clock at op boundaries (it is monotonic in between)
@@ -493,12 +650,13 @@ func runC26(planAny any, cfg simrt.Config) *simkit.Outcome {
 				advance(d, o.Sleep)
 			case "send":
 				var tasks []*simrt.Task
+				var held []*httpConn
 				type slot struct {
 					mi int
 					d  delivery
 				}
 				slots := make([]*slot, 0, len(o.Msgs))
-				for _, mi := range o.Msgs {
+				for k, mi := range o.Msgs {
 					if mi < 0 || mi >= len(p.Msgs) {
 						continue
 					}
@@ -509,9 +667,35 @@ func runC26(planAny any, cfg simrt.Config) *simkit.Outcome {
 					sl := &slot{mi: mi}
 					slots = append(slots, sl)
 					rq := ms.rq
+					var hc *httpConn
+					order := 0
+					if isHTTPType(rq.typ) {
+						c := 0
+						if k < len(o.Conns) {
+							c = o.Conns[k]
+						}
+						if k < len(o.Orders) {
+							order = o.Orders[k]
+						}
+						hc = w.acquireConn(c % maxConns)
+						held = append(held, hc)
+					}
 					tasks = append(tasks, simrt.GoOn("deliver", hub, func() {
 						sl.d = delivery{op: oi, startSim: simrt.SimNow(), startWall: simrt.Now().UnixNano(), stepsBefore: steps}
-						r := w.send(rq)
+						var r response
+						if hc != nil {
+							sl.d.conn, sl.d.order, sl.d.reusedConn = hc.idx, order, hc.served > 0
+							if ms.hasAccept {
+								// a replay that arrives after the connection (RequestCtx) that carried
+								// the accepted original has parsed other requests, and does not itself
+								// come through that connection with the same header order
+								sl.d.afterReuse = w.servedOn(ms.accConn) > ms.accServed && (hc.idx != ms.accConn || order != ms.accOrder)
+							}
+							r = w.sendHTTP(rq, hc, order)
+							sl.d.served = hc.served
+						} else {
+							r = w.send(rq)
+						}
 						sl.d.accepted = accepted(rq.typ, r)
 						sl.d.endSim, sl.d.endWall = simrt.SimNow(), simrt.Now().UnixNano()
 						sl.d.tol = w.tolSeen[rq.nonce]
@@ -521,6 +705,9 @@ func runC26(planAny any, cfg simrt.Config) *simkit.Outcome {
 				for _, t := range tasks {
 					simrt.Join(t)
 				}
+				for _, hc := range held {
+					w.releaseConn(hc)
+				}
 				for _, sl := range slots {
 					ms := st[sl.mi]
 					if sl.d.endSim == 0 && sl.d.startSim == 0 {
@@ -529,8 +716,36 @@ func runC26(planAny any, cfg simrt.Config) *simkit.Outcome {
 					ms.deliveries = append(ms.deliveries, sl.d)
 					if sl.d.accepted && !ms.hasAccept {
 						ms.hasAccept, ms.acceptWall = true, sl.d.endWall
+						ms.accConn, ms.accOrder, ms.accServed = sl.d.conn, sl.d.order, sl.d.served
 					}
 				}
+			case "traffic":
+				if !isHTTPType(o.Typ) || !types[o.Typ] || o.Sender < 0 || o.Sender > 1 {
+					continue
+				}
+				hc := w.acquireConn(o.Conn % maxConns)
+				simrt.Join(simrt.GoOn("traffic", hub, func() {
+					idx := 10000 + oi
+					rq := w.sign(o.Typ, o.Sender, idx, nonceFor(p.Salt, idx), simrt.Now().Unix())
+					if o.Junk {
+						// same fields, same lengths, nothing valid in them: what anybody who
+						// can reach the port can send
+						for k, v := range rq.hdr {
+							rq.hdr[k] = strings.Repeat("0", len(v))
+						}
+					}
+					st := w.sendHTTP(rq, hc, o.Order).status
+					traffic++
+					ok := false
+					if !o.Junk {
+						ok = accepted(o.Typ, response{status: st})
+						if ok && o.Typ == tCacheInv {
+							cacheAccepts++
+						}
+					}
+					simrt.Event("TRAFFIC %s conn=%d junk=%v status=%d", o.Typ, hc.idx, o.Junk, st)
+				}))
+				w.releaseConn(hc)
 			}
 		}
 		invalidations = w.invalidations
@@ -553,7 +768,7 @@ func runC26(planAny any, cfg simrt.Config) *simkit.Outcome {
 	}
 
 	// ------------------------------------------------------------------ oracle
-	replays, outside := 0, 0
+	replays, outside, afterReuse := 0, 0, 0
 	for mi, ms := range st {
 		if ms.rq == nil {
 			continue
@@ -577,6 +792,9 @@ func runC26(planAny any, cfg simrt.Config) *simkit.Outcome {
 			}
 			if di > 0 {
 				replays++
+			}
+			if d.afterReuse {
+				afterReuse++
 			}
 			if d.accepted {
 				acc = append(acc, d)
@@ -603,8 +821,18 @@ func runC26(planAny any, cfg simrt.Config) *simkit.Outcome {
 						sibling = true
 					}
 				}
-				if inside && !sibling && int64(tol) > 2*margin {
-					panic(fmt.Sprintf("HARNESS-ERROR nonce: first delivery of a fresh, correctly signed %s request (offset %.3fs, tolerance %v) was rejected", typ, float64(tsNs-d.startWall)/1e9, tol))
+				reused := false
+				for _, e := range ms.deliveries {
+					reused = reused || (e.op == d.op && e.reusedConn)
+				}
+				if inside && !sibling && int64(tol) > 2*margin && reused {
+					// The request (or a concurrent copy of it) was parsed by a RequestCtx that
+					// had parsed others before. Its rejection is not an accept, so the property
+					// has nothing to say, and it is not provably the driver's doing either (a
+					// receiver confused by buffer reuse does this): counted, not fatal.
+					out.Stats["note.fresh_first_delivery_rejected_on_reused_connection"]++
+				} else if inside && !sibling && int64(tol) > 2*margin {
+					panic(fmt.Sprintf("HARNESS-ERROR nonce: first delivery of a fresh, correctly signed %s request (offset %.3fs, tolerance %v) was rejected (request %d; plan %s)", typ, float64(tsNs-d.startWall)/1e9, tol, mi, planJSON(p)))
 				}
 			}
 		}
@@ -650,6 +878,13 @@ func runC26(planAny any, cfg simrt.Config) *simkit.Outcome {
 			if a2.stepsBefore > a1.stepsBefore {
 				stepNote = fmt.Sprintf("; %d receiver clock step(s) in between", a2.stepsBefore-a1.stepsBefore)
 			}
+			if isHTTPType(typ) {
+				stepNote += fmt.Sprintf("; first on HTTP connection %d (request no. %d there, header order %d), replay on connection %d (request no. %d there, header order %d)",
+					a1.conn, a1.served, a1.order, a2.conn, a2.served, a2.order)
+				if a2.afterReuse {
+					stepNote += ", after the first one's connection had parsed other requests"
+				}
+			}
 			tsNs := ms.rq.ts * int64(time.Second)
 			out.Violate("C26.replay-accepted."+circ+"."+typ,
 				"%s request (sender %s, one nonce) accepted %d times: first accepted at signed-timestamp%+.3fs, byte-identical replay accepted %.3fs later (receiver clock) at signed-timestamp%+.3fs; nonce retention %v, tolerance %v%s (request %d)",
@@ -662,6 +897,8 @@ func runC26(planAny any, cfg simrt.Config) *simkit.Outcome {
 	}
 	out.Stats["probe.replay_deliveries"] += int64(replays)
 	out.Stats["probe.outside_window_deliveries"] += int64(outside)
+	out.Stats["probe.replay_after_connection_reuse"] += int64(afterReuse)
+	out.Stats["probe.other_traffic_requests"] += traffic
 	out.Stats["fault.clock_step_runs"] += int64(min(steps, 1))
 	for _, ms := range st {
 		for _, d := range ms.deliveries {
@@ -695,6 +932,8 @@ func clonePlan(p *C26Plan) *C26Plan {
 	for i, o := range p.Ops {
 		q.Ops[i] = o
 		q.Ops[i].Msgs = append([]int(nil), o.Msgs...)
+		q.Ops[i].Conns = append([]int(nil), o.Conns...)
+		q.Ops[i].Orders = append([]int(nil), o.Orders...)
 	}
 	return &q
 }
@@ -710,8 +949,8 @@ func shrinkC26(planAny any) []any {
 			var ops []Op
 			for _, o := range q.Ops {
 				if o.Op == "send" {
-					var ms []int
-					for _, x := range o.Msgs {
+					var ms, cs, od []int
+					for k, x := range o.Msgs {
 						if x == mi {
 							continue
 						}
@@ -719,12 +958,18 @@ func shrinkC26(planAny any) []any {
 							x--
 						}
 						ms = append(ms, x)
+						if k < len(o.Conns) {
+							cs = append(cs, o.Conns[k])
+						}
+						if k < len(o.Orders) {
+							od = append(od, o.Orders[k])
+						}
 					}
 					if len(ms) == 0 {
 						continue
 					}
-					o.Msgs = ms
-				} else {
+					o.Msgs, o.Conns, o.Orders = ms, cs, od
+				} else if o.Op != "traffic" {
 					if o.RefMsg == mi {
 						if o.Op == "until" {
 							continue
@@ -755,12 +1000,46 @@ func shrinkC26(planAny any) []any {
 			for k := range o.Msgs {
 				q := clonePlan(p)
 				q.Ops[i].Msgs = append(q.Ops[i].Msgs[:k:k], q.Ops[i].Msgs[k+1:]...)
+				if k < len(q.Ops[i].Conns) {
+					q.Ops[i].Conns = append(q.Ops[i].Conns[:k:k], q.Ops[i].Conns[k+1:]...)
+				}
+				if k < len(q.Ops[i].Orders) {
+					q.Ops[i].Orders = append(q.Ops[i].Orders[:k:k], q.Ops[i].Orders[k+1:]...)
+				}
 				out = append(out, q)
 			}
 		}
 	}
 	// simpler values
 	for i, o := range p.Ops {
+		if o.Op == "send" {
+			for k := range o.Conns {
+				if o.Conns[k] != 0 {
+					q := clonePlan(p)
+					q.Ops[i].Conns[k] = 0
+					out = append(out, q)
+				}
+			}
+			for k := range o.Orders {
+				if o.Orders[k] != 0 {
+					q := clonePlan(p)
+					q.Ops[i].Orders[k] = 0
+					out = append(out, q)
+				}
+			}
+		}
+		if o.Op == "traffic" {
+			if o.Conn != 0 {
+				q := clonePlan(p)
+				q.Ops[i].Conn = 0
+				out = append(out, q)
+			}
+			if o.Order != 0 {
+				q := clonePlan(p)
+				q.Ops[i].Order = 0
+				out = append(out, q)
+			}
+		}
 		if o.Sleep {
 			q := clonePlan(p)
 			q.Ops[i].Sleep = false
@@ -818,7 +1097,17 @@ func descC26(planAny any) any {
 	for _, o := range p.Ops {
 		switch o.Op {
 		case "send":
-			ops = append(ops, fmt.Sprintf("send%v", o.Msgs))
+			d := fmt.Sprintf("send%v", o.Msgs)
+			if len(o.Conns) > 0 {
+				d += fmt.Sprintf(" on HTTP connections %v, header orders %v", o.Conns, o.Orders)
+			}
+			ops = append(ops, d)
+		case "traffic":
+			what := "fresh signed"
+			if o.Junk {
+				what = "junk"
+			}
+			ops = append(ops, fmt.Sprintf("other %s %s request from sender %d on HTTP connection %d (header order %d)", what, o.Typ, o.Sender, o.Conn, o.Order))
 		case "wait":
 			ops = append(ops, fmt.Sprintf("wait(%d‰ %s +%ds +%dms%s)", o.Pm, o.Ref, o.Sec, o.Ms, map[bool]string{true: " sleeping"}[o.Sleep]))
 		case "until":
@@ -841,4 +1130,9 @@ func descC26(planAny any) any {
 		cs = append(cs, cal[t])
 	}
 	return map[string]any{"requests": ms, "timeline": ops, "configuration": cs, "hc_interval_s": p.HCInterval}
+}
+
+func planJSON(p *C26Plan) string {
+	b, _ := json.Marshal(p)
+	return string(b)
 }
